@@ -10,6 +10,7 @@ mod c11;
 mod c12;
 mod c13;
 mod c14;
+mod c15;
 mod c18;
 mod ext;
 mod c20;
@@ -49,6 +50,7 @@ fn main() {
         "c12" => c12::main(tier),
         "c13" => c13::main(tier),
         "c14" => c14::main(tier),
+        "c15" => c15::main(tier),
         "c18" => c18::main(tier),
         "c20" => c20::main(tier),
         "eval" => {
